@@ -915,6 +915,6 @@ macro_rules! prop {
     };
 }
 
-prop!(C40, "C40", "case = (SimNet loss/dup/reorder/delay config, 1..4 registered protocols out of 4, optional incoming filter with a per-incoming verdict script from {accept, reject, ignore, retry-once, retry-always}, 1..4 dials from two clients each offering 1..3 protocols incl. unregistered ones); every dial tags its connection on a uni stream and every handler records (its protocol, negotiated protocol, tag); non-trivial = at least one handler ran and >=2 dials; distinct = distinct history hash", 600, 60_000);
-prop!(C41, "C41", "case = (1..3 handlers whose shutdown() takes 0..3000 virtual ms, 1..4 callers invoking Router::shutdown on clones at offsets 0..3500 ms incl. identical instants, optional Endpoint::close on its own, optional live connection); at each shutdown() return the handler-complete flags and Endpoint::is_closed are sampled; non-trivial = >=2 callers; distinct = distinct history hash", 800, 80_000);
-prop!(C42, "C42", "case = (network config, 0..3 hooks per side with per-call accept/reject scripts and close codes, 1..3 dials of kind normal / self / empty protocol name); the hook call log of each dial, the dial result, the number of packets the dialer sent and the close code the dialer observes are compared with the hook-list semantics; non-trivial = at least one hook installed; distinct = distinct history hash", 600, 60_000);
+prop!(C40, "C40", "case = (SimNet loss/dup/reorder/delay config, 1..4 registered protocols out of 4, optional incoming filter with a per-incoming verdict script from {accept, reject, ignore, retry-once, retry-always}, 1..4 dials from two clients each offering 1..3 protocols incl. unregistered ones); every dial tags its connection on a uni stream and every handler records (its protocol, negotiated protocol, tag); non-trivial = at least one handler ran and >=2 dials; distinct = distinct history hash", 6000, 400_000);
+prop!(C41, "C41", "case = (1..3 handlers whose shutdown() takes 0..3000 virtual ms, 1..4 callers invoking Router::shutdown on clones at offsets 0..3500 ms incl. identical instants, optional Endpoint::close on its own, optional live connection); at each shutdown() return the handler-complete flags and Endpoint::is_closed are sampled; non-trivial = >=2 callers; distinct = distinct history hash", 8000, 400_000);
+prop!(C42, "C42", "case = (network config, 0..3 hooks per side with per-call accept/reject scripts and close codes, 1..3 dials of kind normal / self / empty protocol name); the hook call log of each dial, the dial result, the number of packets the dialer sent and the close code the dialer observes are compared with the hook-list semantics; non-trivial = at least one hook installed; distinct = distinct history hash", 6000, 400_000);
